@@ -624,6 +624,138 @@ def gen_models(tier, pairs=False):
             yield f"{n1}+{n2}", m
 
 
+def gen_triples():
+    """Baseline + every triple of deviations from the catalogue."""
+    for (n1, f1), (n2, f2), (n3, f3) in itertools.combinations(DEVIATIONS, 3):
+        m = baseline(11 if "device_configurations" in (n1, n2, n3) else 10)
+        try:
+            f1(m)
+            f2(m)
+            f3(m)
+        except Exception:  # noqa: BLE001  deviations may collide on a name
+            continue
+        if not _names_ok(m):
+            continue
+        yield f"{n1}+{n2}+{n3}", m
+
+
+def _fn_holder(m):
+    """A model-local function with one node, called from the main graph (returns the FunctionProto)."""
+    op = m.opset_import.add()
+    op.domain, op.version = "ctx", 1
+    f = m.functions.add()
+    f.name, f.domain = "Ctx", "ctx"
+    f.input.extend(["kx"])
+    f.output.extend(["ko"])
+    fo = f.opset_import.add()
+    fo.domain, fo.version = "", 20
+    f.attribute.extend(["outer_attr"])
+    f.node.add().CopyFrom(node("Relu", ["kx"], ["ko"], "k_relu"))
+    m.graph.node.add().CopyFrom(node("Ctx", ["b"], ["ctx_call_o"], "n_ctx_call", domain="ctx"))
+    m.graph.output.add().CopyFrom(value_info("ctx_call_o", F()))
+    return f
+
+
+def _if_holder(m):
+    """An If node in the main graph; returns the then-branch GraphProto (the else branch is a plain copy of small_graph)."""
+    then_g = small_graph("ctx_then", capture="a", nodes=1)
+    del then_g.input[:]
+    then_g.node[0].input[0] = "x"
+    else_g = small_graph("ctx_else", capture="a", nodes=1)
+    del else_g.input[:]
+    else_g.node[0].input[0] = "x"
+    a1 = onnx.AttributeProto(name="then_branch", type=onnx.AttributeProto.GRAPH)
+    a1.g.CopyFrom(then_g)
+    a2 = onnx.AttributeProto(name="else_branch", type=onnx.AttributeProto.GRAPH)
+    a2.g.CopyFrom(else_g)
+    m.graph.node.add().CopyFrom(node("If", ["c"], ["ctx_if_o"], "n_ctx_if", attrs=[a1, a2]))
+    m.graph.output.add().CopyFrom(value_info("ctx_if_o", F()))
+    return m.graph.node[-1].attribute[0].g
+
+
+def gen_tensors_in_context(tier):
+    """Every leaf tensor placed where a model can hold one: main-graph initializer, Constant value, initializer of a
+    control-flow body, element of a TENSORS attribute inside a model-local function."""
+    for i, t in enumerate(gen_tensors(tier)):
+        if t.data_type == TP.STRING and False:
+            continue
+        lab = f"tensor#{i}:{TP.DataType.Name(t.data_type)}"
+        if t.name:
+            m = baseline(10)
+            tt = m.graph.initializer.add()
+            tt.CopyFrom(t)
+            tt.name = "ctx_t"
+            m.graph.node.add().CopyFrom(node("Identity", ["ctx_t"], ["ctx_o"], "n_ctx"))
+            m.graph.output.add().CopyFrom(value_info("ctx_o", None))
+            yield lab + "@main_initializer", m
+            m = baseline(10)
+            body = _if_holder(m)
+            tt = body.initializer.add()
+            tt.CopyFrom(t)
+            tt.name = "ctx_bt"
+            body.node.add().CopyFrom(node("Identity", ["ctx_bt"], ["ctx_bo"], "n_ctx_b"))
+            yield lab + "@body_initializer", m
+        m = baseline(10)
+        a = onnx.AttributeProto(name="value", type=onnx.AttributeProto.TENSOR)
+        a.t.CopyFrom(t)
+        m.graph.node.add().CopyFrom(node("Constant", [], ["ctx_c"], "n_ctx_c", attrs=[a]))
+        m.graph.output.add().CopyFrom(value_info("ctx_c", None))
+        yield lab + "@constant_value", m
+        m = baseline(10)
+        f = _fn_holder(m)
+        a = onnx.AttributeProto(name="values", type=onnx.AttributeProto.TENSORS)
+        a.tensors.add().CopyFrom(t)
+        a.tensors.add().CopyFrom(tensor(TP.FLOAT, [1], name="second"))
+        f.node.add().CopyFrom(node("MyConsts", [], ["k_consts"], "k_consts_n", domain="custom.ctx", attrs=[a]))
+        yield lab + "@function_tensors_attribute", m
+
+
+def gen_types_in_context(tier):
+    """Every leaf / nested type as the type of a graph input, of an intermediate value (value_info), of a graph
+    output, of a control-flow body output and of a function-body value (IR >= 10)."""
+    for i, t in enumerate(gen_types(tier)):
+        lab = f"type#{i}"
+        m = baseline(10)
+        m.graph.input.add().CopyFrom(value_info("ctx_in", t, "ctx doc", 1))
+        yield lab + "@graph_input", m
+        m = baseline(10)
+        m.graph.value_info.add().CopyFrom(value_info("a", t))
+        yield lab + "@intermediate_value_info", m
+        m = baseline(10)
+        m.graph.node.add().CopyFrom(node("Identity", ["a"], ["ctx_o"], "n_ctx"))
+        m.graph.output.add().CopyFrom(value_info("ctx_o", t))
+        yield lab + "@graph_output", m
+        m = baseline(10)
+        body = _if_holder(m)
+        body.output[0].type.CopyFrom(t)
+        body.value_info.add().CopyFrom(value_info("x", t)) if False else None
+        yield lab + "@body_output", m
+        m = baseline(10)
+        f = _fn_holder(m)
+        f.value_info.add().CopyFrom(value_info("ko", t, "fn ctx doc"))
+        f.value_info.add().CopyFrom(value_info("kx", t))
+        yield lab + "@function_value_info", m
+
+
+def gen_attributes_in_context(tier):
+    """Every leaf attribute on a main-graph node, on a node of a control-flow body and on a node of a function
+    (reference attributes only inside the function)."""
+    for i, a in enumerate(gen_attributes(tier)):
+        lab = f"attribute#{i}:{a.name}"
+        if not a.ref_attr_name:
+            m = baseline(10)
+            m.graph.node[1].attribute.add().CopyFrom(a)
+            yield lab + "@main_node", m
+            m = baseline(10)
+            body = _if_holder(m)
+            body.node[0].attribute.add().CopyFrom(a)
+            yield lab + "@body_node", m
+        m = baseline(10)
+        f = _fn_holder(m)
+        f.node[0].attribute.add().CopyFrom(a)
+        yield lab + "@function_node", m
+
+
 def _names_ok(m):
     seen = set()
     for n in m.graph.node:
